@@ -65,6 +65,25 @@ theorem newBitMatrix_refines (w h : Nat) :
         unfold SMat.get
         simp [hx', hy']
 
+/-- `ParseBoolMapToBitMatrix(image)` for a non-empty rectangular image: same checked error (zero
+    columns), otherwise the cells of the image. -/
+theorem parseBoolMap_refines (r0 : List Bool) (rest : List (List Bool))
+    (hrect : ∀ r ∈ r0 :: rest, r.length = r0.length) :
+    match SMat.ofBoolMap (r0 :: rest) with
+    | .ok s => RefinesM (WMat.ofBoolMap (r0 :: rest)) s
+    | .error e => WMat.ofBoolMap (r0 :: rest) = .error e := WMat.ofBoolMap_refines r0 rest hrect
+
+/-- `ParseBoolMapToBitMatrix` of the empty image is the checked error in both models. -/
+theorem parseBoolMap_empty :
+    SMat.ofBoolMap [] = .error .illegalArg ∧ WMat.ofBoolMap [] = .error .illegalArg := ⟨rfl, rfl⟩
+
+/-- `ParseStringToBitMatrix(s, set, unset)` for every input: the same error as the naive parser
+    (shared tokeniser), otherwise no panic, the invariant, and the same grid. -/
+theorem parseString_refines (s set unset : List Nat) :
+    match SMat.parse s set unset with
+    | .ok g => RefinesM (WMat.parse s set unset) g
+    | .error e => WMat.parse s set unset = .error e := WMat.parse_refines s set unset
+
 /-! ## BitArray: operations -/
 
 /-- `Set(i)`, `i < size`. -/
